@@ -410,6 +410,25 @@ def run(ctx):
     from . import common
     cg = res.clause('C17.g', 'R-PROV', 'sampling rate / enforced-sampling / skip options are stored as the caller gave them', floor=3)
     common.ctor_params_clause(ctx, res, cg, 'C17', 'C17.g', 'RecordingParameters')
+    # ---- C17.i one decision per recording: the storage-level decision is taken inside the cassette's store routine, which the public save
+    # wrapper runs exactly once (a retry would draw again and shift every later decision); the decision keeps nothing between recordings
+    ci17 = res.clause('C17.i', 'R-TYPESTATE', 'the store routine (and its sampling decision) runs once per save and keeps no state', floor=2)
+    base17 = repo.cls('TapeCassette')
+    sw = base17.methods.get('save_recording')
+    if sw is None:
+        raise AnalysisError('anchor-lost method=TapeCassette.save_recording')
+    hooks = [n for n in ast.walk(sw.node) if isinstance(n, ast.Call) and _self_attr(n.func) == '_save_recording']
+    in_loop = any(isinstance(l, (ast.For, ast.While)) and any(h is x for h in hooks for x in ast.walk(l)) for l in ast.walk(sw.node))
+    once = len(hooks) == 1 and not in_loop
+    ci17.instance('TapeCassette.save_recording calls the store routine exactly once (%d call site(s))' % len(hooks), sw.qualname, once)
+    ci17.evaluations += 1
+    if not once:
+        res.add(Finding('C17', 'C17.i', 'R-TYPESTATE', sw.file, sw.qualname, hooks[1].lineno if len(hooks) > 1 else sw.node.lineno,
+                        '%d calls of _save_recording' % len(hooks),
+                        'save_recording can run the store routine more than once for one recording: the S3 cassette decides (and draws) inside it, so a '
+                        'recording is decided twice and every later decision uses a shifted draw - the kept set no longer follows the seeded sequence'))
+    from . import common as _cm17b
+    _cm17b.stateless_methods_clause(res, ci17, 'C17', 'C17.i', s3, [f3.name], 'each recording is judged by the calculator\'s answer for it')
     return res
 
 
